@@ -6,7 +6,19 @@ From PT Require Import Str Dec Py Loaders Formula FormulaMachine AtomEnv Pyparse
 Import ListNotations. Open Scope string_scope."""
 CT = "c01case"
 
-MANIFEST = None  # filled in below once the theorems are in place
+MANIFEST = dict(
+    text=("Model: Gallina transcription of the pyparsing grammar (ordered choice, pyparsing's white-space skipping rules, "
+          "NotAny(White) guards, aborting parse actions) with the table's symbols, isotopes and ion charges regenerated "
+          "from /repo.  Spec: derivation trees of the documented grammar, render, and the guide's denotation (counts "
+          "multiply their group, repeats add).  Theorems (Props/C01.v): the composition of any parsed structure is the "
+          "count-weighted sum over its nesting (unbounded depth); the parser-acceptance and rejection theorems proved so "
+          "far are listed in the evidence file (the ones named _partial state their restriction).  Tie: strings rendered "
+          "from random derivation trees (all elements/isotopes/ions, all count spellings and separators, nesting) and nine "
+          "kinds of malformation, public and private table: implementation vs parser model (structure, exact counts, "
+          "density) AND implementation vs Spec denotation of the tree (atoms, charge, density) evaluated in Coq."),
+    note="Modelled not verified: pyparsing's engine (modelled as PEG with its white-space rules), Python float(), recursion limit.",
+    technique="Coq proof by structural induction on derivation trees/structures + differential run of parser model and Spec denotation",
+    ref="DESIGN.md section 7 C01")
 
 
 def run(ctx):
